@@ -61,7 +61,13 @@ pub fn build(rng: &mut Rng, plan: &Plan) -> Result<Built, String> {
         privs.push(s);
     }
     if plan.layers & L_ENC != 0 {
-        cfg.add_public_keys(&pubs);
+        // recipients may be handed over in several calls (one per key file): the list is extended each time
+        if pubs.len() >= 2 && (pubs.len() + plan.pieces.len()) % 2 == 0 {
+            cfg.add_public_keys(&pubs[..1]);
+            cfg.add_public_keys(&pubs[1..]);
+        } else {
+            cfg.add_public_keys(&pubs);
+        }
     }
     let key = *cfg.encryption_key();
     let nonce = *cfg.encryption_nonce();
